@@ -54,7 +54,8 @@ impl RunMode {
 
 pub fn pick_mode(rng: &mut Rng) -> RunMode {
     match rng.below(10) {
-        0..=3 => RunMode::Sync(DMode::Dispatch),
+        0..=2 => RunMode::Sync(DMode::Dispatch),
+        3 => RunMode::Sync(DMode::RunNow),
         4 | 5 => RunMode::Sync(DMode::Par),
         6 => RunMode::Sync(DMode::Seq),
         7 => RunMode::Sync(DMode::SeqTl),
@@ -796,7 +797,7 @@ pub fn run(args: &Args, prop: &str, up: &'static str, quick: u64, thorough: u64,
         }
         let mut rng = Rng::new(args.case_seed(c));
         let execute = execute_every > 0 && (c % execute_every == 0 || tiny());
-        case(prop, up, &mut rng, &mut pools, &mut rep, c, execute);
+        guard_case(&mut rep, c, |rep| case(prop, up, &mut rng, &mut pools, rep, c, execute));
     }
     rep.finish();
     0
